@@ -316,7 +316,10 @@ def gen_fail(g, probe, rel):
             "(assert (forall ((cgx Bool)) (and cgx 1)))", "(define-fun cgf ((cgx Bool)) Bool (and cgx 1))",
             "(assert (exists ((cgx Real)) (let ((cgw cgx)) (< cgw true))))", "(assert (let ((cgx 7)) (= cgx 7)",
             # the let re-binds the declared cgx (bound only after all bindings are read) and fails at a later binding
-            "(assert (let ((cgx 1) (cgq (+ true 1))) (> cgx cgq)))", "(assert (let ((cgq 2) (cgx 1) (cgr (frob))) (> cgx cgq)))"]) + "\n")
+            "(assert (let ((cgx 1) (cgq (+ true 1))) (> cgx cgq)))", "(assert (let ((cgq 2) (cgx 1) (cgr (frob))) (> cgx cgq)))",
+            # definitions that are read to the end and rejected for the sort of their body
+            "(define-fun cgf ((cgx Bool)) Int cgx)", "(define-fun cgf ((cgy Int) (cgx Int)) Bool (+ cgx cgy))",
+            "(define-fun cgf ((cgx Real)) Int (+ cgx 1.5))"]) + "\n")
     if kind == "custom-operator":
         bf = f if t == BOOL else (probe if reftype_or_none(probe) == BOOL else const(BOOL, True))
         return ("custom-operator", g.choice(CUSTOM_SERVICES), bf)
